@@ -326,6 +326,7 @@ pub fn c01_families(tier: &str) -> Vec<SeqSpec> {
     ab.push(Op::Flush);
     ab.extend(reopen_ops(2));
     v.push(spec("F-bytes", &["M2b", "T300n"], k5(), ab, if t { 3 } else { 2 }, READS));
+    v.push(trivial_move_family(t, READS));
     v
 }
 
@@ -505,6 +506,7 @@ pub fn c11_seq_families(tier: &str) -> Vec<SeqSpec> {
         Op::Compact(None, None),
     ];
     fams.push(spec("C11-seek/T300", &["T300"], k4(), a_seek, if t { 7 } else { 5 }, ck).flush());
+    fams.push(trivial_move_family(t, ck));
     fams
 }
 
@@ -580,8 +582,10 @@ pub fn c09(tier: &str) -> ! {
     run_families(&mut rep, c09_seq_families(tier), b.mul_f32(0.7), is_c09_clause);
     if t {
         run_sched(&mut rep, "liveness/p2d4", &c09_programs(), (2, 4), 16, false, 2, Duration::from_secs(1500), is_c09_clause);
+        run_sched(&mut rep, "liveness-under-fault/p2d4", &c09_fault_programs(), (2, 4), 16, false, 2, Duration::from_secs(900), is_c09_clause);
     } else {
         run_sched(&mut rep, "liveness/p1d3", &c09_programs(), (1, 3), 4, false, 1, Duration::from_secs(15), is_c09_clause);
+        run_sched(&mut rep, "liveness-under-fault/p1d3", &c09_fault_programs(), (1, 3), 4, false, 1, Duration::from_secs(10), is_c09_clause);
     }
     finish_common(&mut rep);
     sched_assumptions(&mut rep);
@@ -756,4 +760,15 @@ pub fn c04(tier: &str) -> ! {
     finish_common(&mut rep);
     rep.cov("oracle", json!("at every node: a full forward and backward scan equals the model; and every cursor program of the stated length over {seek(t) for t in keys and gap keys, seek_to_first, seek_to_last, next, prev} (next/prev only while valid) on a fresh iterator of the latest state and of every live snapshot keeps is_valid/key/value equal to a cursor over the sorted model"));
     rep.finish()
+}
+
+/// Start from a non-initial state: two sessions that each wrote one key and were reopened without
+/// log reuse (recovery flushes each WAL into its own disjoint level-0 table). Two more such
+/// sessions make four level-0 files; the size-triggered compaction then moves a single file to
+/// level 1 without rewriting it (trivial move). Reopening afterwards replays that edit from the
+/// manifest.
+pub fn trivial_move_family(thorough: bool, ck: Checks) -> SeqSpec {
+    let alphabet = vec![Op::Put(2, 0), Op::Put(3, 0), Op::Put(0, 0), Op::Del(1), Op::Reopen(0), Op::Compact(None, None)];
+    spec("trivial-move/T300n", &["T300n"], k4(), alphabet, if thorough { 7 } else { 5 }, ck)
+        .with_setup(vec![Op::Put(0, 0), Op::Reopen(0), Op::Put(1, 0), Op::Reopen(0)])
 }
